@@ -171,6 +171,9 @@ func (c *Ctx) hasFreeBVar(t *Term, bound []*Term) bool {
 func (t *Term) ID() int       { return t.id }
 func (t *Term) IsConst() bool { return t.Op == "const" }
 func (t *Term) IsTrue() bool  { return t.Op == "true" }
+
+// IsOpen reports whether t mentions a bound variable outside a binder of its own.
+func (t *Term) IsOpen() bool { return t.open }
 func (t *Term) IsFalse() bool { return t.Op == "false" }
 func (t *Term) Open() bool    { return t.open }
 
@@ -348,6 +351,10 @@ func (c *Ctx) Eq(a, b *Term) *Term {
 	if a.S.Kind == KBV && a.S.W == 32 {
 		fa, fb := c.freshRef(a), c.freshRef(b)
 		if fa != nil && (c.OldRef[b.id] || b.IsConst() && b.V < 0x100000) || fb != nil && (c.OldRef[a.id] || a.IsConst() && a.V < 0x100000) {
+			return c.False
+		}
+		// snapshot objects (constants 0x08000000..0x0800ffff) are distinct from every program reference
+		if a.IsConst() && a.V>>16 == 0x0800 && (fb != nil || c.OldRef[b.id]) || b.IsConst() && b.V>>16 == 0x0800 && (fa != nil || c.OldRef[a.id]) {
 			return c.False
 		}
 		if fa != nil && fb != nil && fa == fb {
@@ -1437,6 +1444,71 @@ func (c *Ctx) script(asserts []*Term, gets []*Term, logic string, produceModels 
 			fmt.Fprintf(&b, "(assert (= %s (bvadd (bvmul %s %s) %s)))\n", xs, qs, ks, rs)
 			fmt.Fprintf(&b, "(assert (bvult %s %s))\n", rs, ks)
 			fmt.Fprintf(&b, "(assert (bvule %s %s))\n", qs, bvLit(mask(x.S.W)/k.V, x.S.W))
+		}
+	}
+	for _, t := range order {
+		if (t.Op == "bvsdiv" || t.Op == "bvsrem") && !t.open && t.Args[1].IsConst() && t.Args[1].V > 1 && t.Args[1].V < 1<<31 {
+			// truncated signed division by a positive constant: x = q*k + r, r has the sign of x
+			x, k := t.Args[0], t.Args[1]
+			q := c.bvbin("bvsdiv", x, k)
+			r := c.bvbin("bvsrem", x, k)
+			qs, rs, xs, ks := pr(q), pr(r), pr(x), pr(k)
+			zero := bvLit(0, x.S.W)
+			fmt.Fprintf(&b, "(assert (= %s (bvadd (bvmul %s %s) %s)))\n", xs, qs, ks, rs)
+			fmt.Fprintf(&b, "(assert (ite (bvsge %s %s) (and (bvsge %s %s) (bvslt %s %s) (bvsge %s %s) (bvsle %s %s)) (and (bvsgt %s (bvneg %s)) (bvsle %s %s) (bvsle %s %s) (bvsge %s %s))))\n",
+				xs, zero, rs, zero, rs, ks, qs, zero, qs, xs, rs, ks, rs, zero, qs, zero, qs, xs)
+		}
+	}
+	// monotonicity of multiplication by a constant, for every pair of products x*k, y*k in the
+	// problem (including the q*k of the division lemmas): when neither product wraps,
+	// x*k < y*k implies x*k + k <= y*k, and equal products have equal factors. Bit-blasting does
+	// not find this ("both are multiples of 188") in reasonable time.
+	type mulT struct {
+		x, k *Term
+	}
+	var muls []mulT
+	seenMul := map[[2]int]bool{}
+	addMul := func(x, k *Term) {
+		if x.open || k.V <= 1 || seenMul[[2]int{x.id, k.id}] {
+			return
+		}
+		seenMul[[2]int{x.id, k.id}] = true
+		muls = append(muls, mulT{x, k})
+	}
+	for _, t := range order {
+		switch {
+		case t.Op == "bvmul" && !t.open && t.Args[1].IsConst():
+			addMul(t.Args[0], t.Args[1])
+		case t.Op == "bvmul" && !t.open && t.Args[0].IsConst():
+			addMul(t.Args[1], t.Args[0])
+		case (t.Op == "bvsdiv" || t.Op == "bvsrem") && !t.open && t.Args[1].IsConst() && t.Args[1].V > 1 && t.Args[1].V < 1<<31:
+			addMul(c.bvbin("bvsdiv", t.Args[0], t.Args[1]), t.Args[1])
+		case (t.Op == "bvudiv" || t.Op == "bvurem") && !t.open && t.Args[1].IsConst() && t.Args[1].V > 1:
+			addMul(c.bvbin("bvudiv", t.Args[0], t.Args[1]), t.Args[1])
+		}
+	}
+	nPairs := 0
+	for i := 0; i < len(muls) && nPairs < 24; i++ {
+		for j := i + 1; j < len(muls) && nPairs < 24; j++ {
+			a, bb := muls[i], muls[j]
+			if a.k != bb.k || a.x.S != bb.x.S {
+				continue
+			}
+			nPairs++
+			w := a.x.S.W
+			ks := pr(a.k)
+			xs, ys := pr(a.x), pr(bb.x)
+			px := fmt.Sprintf("(bvmul %s %s)", xs, ks)
+			py := fmt.Sprintf("(bvmul %s %s)", ys, ks)
+			bound := bvLit(mask(w)/a.k.V, w)
+			fmt.Fprintf(&b, "(assert (=> (and (bvule %s %s) (bvule %s %s)) (and (=> (bvult %s %s) (bvule (bvadd %s %s) %s)) (=> (bvult %s %s) (bvule (bvadd %s %s) %s)) (=> (= %s %s) (= %s %s)))))\n",
+				xs, bound, ys, bound, px, py, px, ks, py, py, px, py, ks, px, px, py, xs, ys)
+			// successor factors (always valid): (x+1)*k = x*k + k
+			one := bvLit(1, w)
+			fmt.Fprintf(&b, "(assert (and (=> (= %s (bvadd %s %s)) (= %s (bvadd %s %s))) (=> (= %s (bvadd %s %s)) (= %s (bvadd %s %s)))))\n",
+				ys, xs, one, py, px, ks, xs, ys, one, px, py, ks)
+			// congruence, spelled out for the bit-blaster: equal factors, equal products
+			fmt.Fprintf(&b, "(assert (=> (= %s %s) (= %s %s)))\n", xs, ys, px, py)
 		}
 	}
 	emitted := map[int]bool{}
